@@ -5,7 +5,9 @@ package db
 import (
 	"bytes"
 	"encoding/binary"
+	"errors"
 	"os"
+	"syscall"
 )
 
 const (
@@ -21,7 +23,8 @@ var (
 func validJournal(file string) (bool, error) {
 	fh, err := os.Open(file)
 	if err != nil {
-		if os.IsNotExist(err) {
+		if os.IsNotExist(err) || errors.Is(err, syscall.ENAMETOOLONG) {
+			// (a name too long to exist: this database can't have a journal)
 			return false, nil
 		}
 		// maybe it's a directory, or no read permission.
